@@ -106,6 +106,7 @@ def cases(draw):
         "block": [draw(st.sampled_from([1, 2, 3, 8])) for _ in range(3)],
         "acc": acc, "bits": [draw(st.integers(0, 3)) for _ in range(3)],
         "shard_enc": draw(st.sampled_from(["raw", "gzip"])),
+        "shard_enc_data": draw(st.sampled_from(["raw", "gzip"])),
         "content": draw(st.sampled_from(["position", "position", "limits"])),
         "seed": draw(st.integers(0, 2 ** 31)),
         "big_endian": draw(st.integers(0, 3)) == 0,
@@ -229,7 +230,8 @@ def build_info(case):
     X, Y, Z = case["shape"]
     sharding = ds.sharding_dict(case["bits"][0], case["bits"][1],
                                 case["bits"][2], case["shard_enc"],
-                                case["shard_enc"]) \
+                                case.get("shard_enc_data",
+                                         case["shard_enc"])) \
         if case["acc"] == "sharded" else None
     sc = ds.make_scale("1mm", [X, Y, Z], case["chunk"], case["encoding"],
                        resolution=[1e6, 1e6, 1e6], block=case["block"],
